@@ -41,7 +41,9 @@ Failures(r) ==
     [] r.t = "neg"  -> NegFailures(r)
     [] OTHER        -> {"unknown-record"}
 
-Judged(r) == (r.t = "site" /\ WF(r)) \/ r.t = "neg" \/ (r.t = "cat" /\ DOMAIN r.cat # {})
+SelfTestBase == 10000000       \* records with larger ids are the driver's deliberately corrupted / hand-made records
+Judged(r) == /\ r.id < SelfTestBase
+             /\ (r.t = "site" /\ WF(r)) \/ r.t = "neg" \/ (r.t = "cat" /\ DOMAIN r.cat # {})
 
 TInit == i = 1 /\ bad = {} /\ agree = 0 /\ judged = 0
 TNext == /\ i <= N
